@@ -147,3 +147,6 @@ package packets
 //@ ensures len0: len(buf) == 0 ==> r0 == nil && pk.ReasonCode == old(pk.ReasonCode)
 //@ ensures len1: len(buf) == 1 ==> r0 == nil && pk.ReasonCode == buf[0]
 //@ ensures len2plus: len(buf) >= 2 && r0 == nil ==> pk.ReasonCode == buf[0]
+
+// verif:func packets.Packet.ReasonCodeValid
+//@ ensures success-is-valid: pk.ReasonCode == 0 ==> r0
